@@ -293,6 +293,10 @@ def pyev_line(src: str) -> str:
     return " ".join(["pyev", hexs(src)] + parse_tokens(src))
 
 
+def pyevl_line(src: str) -> str:
+    return " ".join(["pyevl", hexs(src)] + parse_tokens(src))
+
+
 def cmet_line(forced: str, src: str) -> str:
     return " ".join(["cmet", forced, str(len(src)), hexs(src), hexs(src.lower().strip())])
 
@@ -399,6 +403,18 @@ class _State:
             ns = RecDict(w, self.names)
             try:
                 v = eval(compile(src, "<pyev>", "eval"), {"__builtins__": {}}, ns)
+                head = "ok:" + show(v)
+            except BaseException:  # noqa
+                head = "fail"
+            return f"{head} {{{'|'.join(w.log)}}}", None
+        if op == "pyevl":
+            src = unhexs(t[1])
+            w = World(self.world.seed)
+            ns = RecDict(w, self.names)
+            dict.__setitem__(ns, "true", True)
+            dict.__setitem__(ns, "false", False)
+            try:
+                v = bool(eval(compile(src, "<pyevl>", "eval"), {"__builtins__": {}}, ns))
                 head = "ok:" + show(v)
             except BaseException:  # noqa
                 head = "fail"
@@ -749,7 +765,42 @@ def gen_tool_call(rng, d, tool_names):
 
 
 CAPS = ["read_fs", "write_fs", "net", "exec_code", "money", "email_send"]
-TOOLNAMES = ["tool1", "Calc", "k", "f0", "get_x"]
+# names nothing in the library restricts to identifiers: regex-special, odd, empty, long, non-ASCII, case-folding traps,
+# equal to an allow-listed function
+ODD_TOOLNAMES = ["*", "**kwargs", "lookup(v2", "ns\\calc", "c++", "a.b", "[x", "(", "$", "t0|t1", "", "n" * 300,
+                 "\u00df", "\u0130x", "abs", "my tool", "a+", "x{2", "\\", "?", "pi", "true", "t.0", "f(", "{", "[",
+                 "tool1)", "\t", "sqrt"]
+TOOLNAMES = ["tool1", "Calc", "k", "f0", "get_x"] + ODD_TOOLNAMES
+
+
+# history dependence: the same text through the pathways in several orders, on the same and on fresh engines
+ORDERS = [["logic", "math", "logic"], ["math", "logic", "math"], ["auto", "math", "logic", "auto"],
+          ["logic", "logic", "math", "math"]]
+
+
+def history_block(rng, facts, src, pathways=("math", "logic", "auto"), concrete=False, **cfg):
+    """lines: fresh engine, `src` through an order of pathways twice; fresh engine again, another order"""
+    mk = cmet_line if concrete else met_line
+    lines = []
+    orders = rng.sample(ORDERS, 2)
+    seed = rng.randrange(1, 10 ** 6)                # one scripted environment for the whole case
+    for order in orders:
+        lines.append(cfg_line(facts, seed, **cfg))  # a fresh engine (tables stay)
+        for _rep in range(2):
+            for pw in order:
+                if pw in pathways:
+                    lines.append(mk(pw, src))
+    return lines
+
+
+TRUEFALSE_TRACER = ["true + t0", "f0(t0, k=(true and t1))", "true", "false or t0", "not true", "t0 if true else t1",
+                    "[true, false]", "(true and t0) < t1", "f1(true)", "t0 * (false or t1)", "true if t0 else false",
+                    "-t0 if false else +t1", "f0(k=true)", "(t0, true)"]
+TRUEFALSE_CONCRETE = ["true + 1", "round(2.567, ndigits=(true and 2))", "true and 2", "false or 'a'", "not false",
+                      "max(true, 0)", "[true, 1][0 if false else 1] if False else 3", "true", "1 if true else 2",
+                      "int(true) + 1", "true == 1", "(false, true)", "abs(-true)", "'true'", "len('false') + true"]
+
+
 
 
 def header(rng, facts, names=None, tools=None, **cfg):
@@ -776,6 +827,8 @@ def random_tools(rng):
 
 # concrete-value grammar (C02 oracle; C01 confinement profile)
 def concrete_lit(rng):
+    if rng.random() < 0.06:
+        return rng.choice(["true", "false"])
     return rng.choice(["0", "1", "2", "3", "7", "-1", "2.5", "0.0", "True", "False", "'a'", "'ab'", "''", "'true'",
                        "'False x'", "10", "None", "1e308", "0.1", "'1'", "'11'", "-0.0", "5", "[1, 2]", "(3,)"])
 
